@@ -177,7 +177,24 @@ def degenerate_histories():
             yield {"fam": "degenerate", "steps": [V0] + d + [wr, {"op": "write", "r": 0, "key": ["int", 1], "val": ["scalar", 7]}]}
 
 
+def key_vector_histories():
+    """a live vector used as the KEY of a write (positions counted from the end, repeated positions, a mask) is only read: the key
+    vector — and a table holding it as a column — shows the same contents afterwards, also when the write is refused half-way"""
+    V0 = {"op": "newvec", "dst": 0, "vals": [0, 1, 2], "name": "a"}
+    for kvals in ([0, -1], [-1, -3], [-2, -2], [2, -1, 0], [-3, 5], [True, False, True]):
+        K = {"op": "newvec", "dst": 1, "vals": list(kvals), "name": "k"}
+        n = sum(1 for x in kvals if x is True) if isinstance(kvals[0], bool) else len(kvals)
+        for val in (["scalar", 9], ["list", [7, 8, 9][:n]], ["scalar", 1.5]):
+            yield {"fam": "degenerate", "steps": [V0, K, {"op": "write", "r": 0, "key": ["kslot", 1], "val": val},
+                                                  {"op": "write", "r": 0, "key": ["int", 1], "val": ["scalar", 7]}]}
+        # the key is a live column of a table
+        yield {"fam": "degenerate", "steps": [V0, {"op": "newtab", "dst": 2, "cols": [["k", list(kvals)]], "form": "list"},
+                                              {"op": "getcol", "dst": 1, "t": 2, "j": 0, "how": "cols"},
+                                              {"op": "write", "r": 0, "key": ["kslot", 1], "val": ["scalar", 9]}]}
+
+
 def generate(rng, tier):
+    yield from key_vector_histories()
     for spec in degenerate_histories():
         yield spec
     n = 6000 if tier == "quick" else 30000
